@@ -43,6 +43,14 @@ func Faults() []Fault {
 		{Name: "unknown-attribute-command", Lines: rel("%p{@nosuch: #{m0}} x")},
 		{Name: "unknown-at-command", Lines: rel("= @nosuch thing")},
 		{Name: "unknown-at-command-bare", Lines: rel("= @nosuch")},
+		// names that merely begin with, or differ in case from, a command that exists
+		{Name: "unknown-at-command-known-prefix-upper", Lines: rel("= @renderPartial")},
+		{Name: "unknown-at-command-known-prefix-underscore", Lines: rel("= @render_all()")},
+		{Name: "unknown-at-command-known-prefix-digit", Lines: rel("= @render2 L0" + Args)},
+		{Name: "unknown-at-command-known-prefix-inline", Lines: rel("%p= @renderOther()")},
+		{Name: "unknown-at-command-children-suffix", Lines: rel("= @childrenAll")},
+		{Name: "unknown-at-command-children-hyphen", Lines: rel("= @children-now")},
+		{Name: "unknown-at-command-capitalised", Lines: rel("= @Render L0" + Args)},
 		{Name: "children-with-arguments", Lines: rel("= @children s0")},
 		{Name: "render-without-argument", Lines: rel("= @render")},
 		{Name: "cond-attr-static-value", Lines: rel("%p{a ? \"x\"} t")},
